@@ -3,7 +3,8 @@ import Driver.RepoTraceIO
 Driver for C26 (stream: harness/main/c26.go). One case = one run of `tag` / `rewrite` /
 `repair snapshots`, complete or cut after `k` mutating backend operations. Records:
   cmd <hex>                      command line
-  crash <k> <n>                  crash point, number of mutations of the complete run
+  crash <k> <n> <crash|fail>     crash: backend dead after k mutations; fail: every attempt on the file of the
+                                 k-th mutating operation fails, everything else keeps working; n = mutations of the complete run
   last <kind> <count>            last mutation that went through (label)
   r0pack / r0index / r0snap      initial repository
   r0check <0|1>                  real `check` on the initial repository
@@ -50,7 +51,10 @@ def handleC26 (c : Case) : Verdict :=
     | s :: _ =>
       if ek.contains s.2.key then
         some (s!"C26:{cmd}:empty-snapshot-removed-without-forget", s!"snapshot {s.1} (lineage {s.2.key}) removed, nothing saved, no --forget")
-      else some (s!"C26:{cmd}:lineage-lost-at-crash-point", s!"snapshot {s.1} (lineage {s.2.key}) has no file in the state after the run")
+      else
+        let fmode := match c.find "crash" with | some r => r.getD 3 "crash" | none => "crash"
+        let at_ := if fmode == "fail" then "after-failed-operation" else "at-crash-point"
+        some (s!"C26:{cmd}:lineage-lost-{at_}", s!"snapshot {s.1} (lineage {s.2.key}) has no file in the state after the run")
   let specOrig : Option (String × String) :=
     tr.findSome? fun e => match e with
       | .saveSnap n sn' =>
